@@ -64,6 +64,27 @@ CLAIMED = {
         "the comparison's being a key order is C08's ltP theorem.",
    technique="Lean 4 proof (refinement of each sort phase to the unique stable sort; iterator invariant) + differential correspondence check",
    design="§5 C20"),
+ "C03": dict(
+   text="Lean theorems (Echse.Props.C03) about the transcribed model of next_evmux over abstract sub-streams that refine "
+        "sorted lists, for every sequence of peek/pop calls: non-decreasing order, peek returns what the next pop returns, "
+        "no occurrence is lost or invented, end-of-stream iff all sources ended; identical (uid,start) collapse to one "
+        "under the guard that a source holds one uid per instant (the guard is necessary: recorded finding D42 with a "
+        "kernel-evaluated witness). Real mux objects (nested, ties, duplicates) are driven by random scripts in the "
+        "harness and compared with the model; the order/multiset/peek conditions are checked on the implementation.",
+   note="Trusted: Lean kernel, harness hx_strm.c (#includes evical.c for the array stream). Sources are assumed sorted (C16). "
+        "KNOWN FINDING D42 (duplicate hidden behind another uid at the same instant).",
+   technique="Lean 4 proof (invariant by induction over peek/pop scripts, refinement to a reference merge) + differential correspondence check",
+   design="§5 C03"),
+ "C02": dict(
+   text="Lean theorems (Echse.Props.C02) about the transcribed model of next_evfilt/make_evfilt: for sorted occurrence and "
+        "exception lists of any length and any duration the filter delivers exactly the occurrences whose start equals no "
+        "exception start, under any peek/pop script (refinement to List.filter; loop bound proved). Combined with C03 this "
+        "is (RRULE u RDATE) minus (EXRULE u EXDATE). Real filter objects over muxes are compared with the model and with the set "
+        "expression in the harness, including zero durations, near misses inside a duration and runs of exceptions.",
+   note="Trusted: Lean kernel, harness hx_strm.c. The parser's assembly of the four lists (make_task) is exercised by C01/C05's "
+        "checks, not here. evfilt.c was repaired (start equality instead of strict range overlap).",
+   technique="Lean 4 proof (refinement of the two-pointer walk to a list filter) + differential correspondence check",
+   design="§5 C02"),
 }
 
 checks = []
